@@ -162,6 +162,7 @@ pub fn core_families(rep: &mut Report, thorough: bool) {
 	run_into(rep, "U", fam::fam_unlock(thorough), &cfg);
 	run_into(rep, "S", fam::fam_readers(thorough), &cfg);
 	run_into(rep, "G", fam::fam_debug(thorough), &cfg);
+	run_into(rep, "G2", fam::fam_debug_kill(thorough), &cfg);
 	run_into(rep, "T", fam::fam_twice(Body { touch: true, yield_mid: false, panic: false, clear: false, rekey: false }, thorough), &cfg);
 	if thorough {
 		run_into(rep, "N-flavours", fam::fam_pairs_of(&fam::nested_specs(), "Nf", body, &FLAVOURS[1..]), &cfg);
@@ -173,6 +174,19 @@ pub fn core_families(rep: &mut Report, thorough: bool) {
 			run_into(rep, &format!("E4-5/pb{}", pb), fam::fam_e4(5, Body { touch: true, yield_mid: false, panic: false, clear: false, rekey: false }), &cfg4);
 		}
 	}
+}
+
+/// Families G / G2 (Debug against holders and killers) under the verdict of the report's own property (used by C17).
+pub fn debug_families_into(rep: &mut Report, thorough: bool) {
+	let cfg = Cfg { verdict_props: vec![rep.prop.clone()], ..Cfg::default() };
+	run_into(rep, "G", fam::fam_debug(thorough), &cfg);
+	run_into(rep, "G2", fam::fam_debug_kill(thorough), &cfg);
+}
+
+/// Family P under the verdict of the report's own property (used by C04).
+pub fn poison_family_into(rep: &mut Report, thorough: bool) {
+	let cfg = Cfg { verdict_props: vec![rep.prop.clone()], post_release_points: true, ..Cfg::default() };
+	run_into(rep, "P", fam::fam_poison(thorough), &cfg);
 }
 
 pub fn check_core(prop: &str, tier: &str) -> ! {
@@ -192,12 +206,26 @@ pub fn check_core(prop: &str, tier: &str) -> ! {
 		run_into(&mut rep, "B+panic", fam::with_panics(&fam::fam_b(Body::TOUCH, &[(true, true), (true, false), (false, false)])), &cfg);
 		run_into(&mut rep, "X+panic", fam::with_panics(&fam::fam_pairs_of(&fam::mixed_specs(), "X", Body::TOUCH, &[Flavour::Guard, Flavour::ScopedTryOwned])), &cfg);
 		run_into(&mut rep, "P", fam::fam_poison(tier == "thorough"), &cfg);
+		// a raw operation that panics (and the acquisition of a lock such a panic killed) must not make the library
+		// release what the caller does not hold
+		crate::faults::small_fault_sweep(&mut rep, "C05");
 		if tier == "thorough" {
 			run_into(&mut rep, "N+panic", fam::with_panics(&fam::fam_pairs_of(&fam::nested_specs(), "N", Body::TOUCH, &FLAVOURS)), &cfg);
 		}
 		// "released exactly once when the scoped call ends", also when the call is made (and unwinds) inside a
 		// destructor during an earlier unwind
 		crate::seqchecks::nested_unwind_sweep(&mut rep, tier == "thorough", "C05");
+		// histories with several panics / poisoned states in a row (menu searches): a hold that is not released when
+		// the call ends is this property's failure whichever neighbouring oracle words it
+		crate::menuchecks::c11_menu(&mut rep, tier == "thorough");
+		let mine = |v: &Viol| ["leak-after-user-panic|", "leak-after-drop|", "failed-try-holds|", "scoped-returned-while-holding|", "key-returned-while-holding|"].iter().any(|p| v.key.starts_with(p));
+		let moved: Vec<Viol> = rep.xrefs.iter().filter(|v| mine(v)).cloned().collect();
+		rep.xrefs.retain(|v| !mine(v));
+		for mut v in moved {
+			v.key = format!("hold-outlives-call:{}:{}", v.prop, v.key);
+			v.prop = "C05".into();
+			rep.violation(v);
+		}
 	}
 	rep.set("rule", "explicit-state search: every interleaving (at raw-lock-operation and mid-section yield granularity) of every program of each listed family, states de-duplicated on a canonical fingerprint; each transition is one real execution step of happylock under the controlled scheduler");
 	rep.finish()
@@ -283,6 +311,8 @@ pub fn check_c11(tier: &str) -> ! {
 	crate::menuchecks::c11_menu(&mut rep, thorough);
 	// "at any point": also when the panicking call is made by a destructor during an earlier unwind
 	crate::seqchecks::c11_nested_unwind(&mut rep, thorough);
+	// user code also runs inside Debug (the payload's fmt): a panic there, with or without a guard alive
+	crate::seqchecks::debug_panic_sweep(&mut rep, thorough, "C11");
 	// every release issued while a panic unwinds a hold must be a legal one ("released exactly once"): the audit is part of C11 here
 	let is_c11 = |v: &Viol| v.prop == "C05" || (v.prop == "C01" && v.key.starts_with("deadlock|")) || (v.prop == "C06" && (v.key.starts_with("key-lost") || (v.key.starts_with("probe-mismatch|after-") && v.key.contains("panic"))));
 	let moved: Vec<Viol> = rep.xrefs.iter().filter(|v| is_c11(v)).cloned().collect();
